@@ -293,6 +293,26 @@ register(
 )
 
 
+def _c11_stage(ctx):
+    import c11
+
+    return c11.stage(ctx)
+
+
+_c11_stage.__name__ = "c11"
+
+register(
+    "C11",
+    [_c11_stage],
+    "generated programs (every dialect incl. classic, half of them with their helpers in an include file found through a two-directory search path): bytes from compile_clvm_text, file-to-file compile_clvm, the CLI's own option derivation with -O, "
+    "the real Python extension (chialisp.compile and chialisp.compile_clvm), the real `run -O` binary re-assembled by the real `opc`; all routes that compile must emit identical bytes and must agree on acceptance; "
+    "for dialect programs the real `cldb -t` [-O] names its root frame clvm_program_<treehash>: that hash must equal the tree hash of what `run` emits with the same flags. Distinct non-trivial = distinct program on which all routes emitted the same bytes",
+    needs=("bins", "py"),
+    min_nontrivial=20,
+    assumptions=["the WASM binding is not executed (no wasm target / node in the image); it calls the same library function"],
+)
+
+
 def evidence(pid, plan, merged, tier, seed, wall, nviol, known_hits):
     c = merged["counters"]
     cov = {
